@@ -1,4 +1,5 @@
 import GceTcb.Gen.AbiSizes
+import GceTcb.Gen.EvlConsts
 import GceTcb.Spec.AbiLayouts
 import GceTcb.Proofs.Codecs
 import GceTcb.Proofs.EventLog
@@ -685,6 +686,29 @@ theorem C18_Digest_layout :
     AbiSizes.tpmAlgoSize = AbiLayouts.tpmAlgoSize ∧
     (∀ p ∈ AbiLayouts.tpmAlgoSize, tpmAlgoSize p.1 = some p.2) ∧
     AbiSizes.DigestReadOrder = AbiLayouts.digestOrder ∧ AbiSizes.DigestWriteOrder = AbiLayouts.digestOrder := by decide
+
+/-- the model's digest-size function IS the regenerated map: the same size for every listed algorithm id and
+    `none` for every other id (C18_Digest_layout alone would admit a model that knows more algorithms) -/
+theorem C18_Digest_table_exact (alg : Nat) : tpmAlgoSize alg = AbiSizes.tpmAlgoSize.lookup alg := by
+  simp only [tpmAlgoSize, AbiSizes.tpmAlgoSize, List.lookup]
+  by_cases h4 : alg = 4
+  · subst h4; rfl
+  · by_cases h11 : alg = 11
+    · subst h11; rfl
+    · by_cases h12 : alg = 12
+      · subst h12; rfl
+      · have e4 : (alg == 4) = false := by simpa using h4
+        have e11 : (alg == 11) = false := by simpa using h11
+        have e12 : (alg == 12) = false := by simpa using h12
+        simp [h4, h11, h12, e4, e11, e12]
+
+/-- the widths of the size prefixes / counts the readers of Model/EventLog.lean use (`readSizedArray cfg 1` in
+    readCStr, `readSizedArray cfg 4` in readU32Array, `readLE 4` in readDigestArray and readEventData) are the
+    widths of the `size` locals of the Go readers, regenerated from their static types -/
+theorem C18_SizePrefix_widths :
+    Gen.EvlConsts.sizePrefixWidths =
+      [("eventlog.TCGEventData.Unmarshal", 4), ("eventlog.ByteSizedCStr.Unmarshal", 1),
+       ("eventlog.Uint32SizedArray.Unmarshal", 4), ("eventlog.Uint32SizedArrayT.Unmarshal", 4)] := by decide
 
 /-- an unknown algorithm, or a digest whose length is not the algorithm's, is refused by Marshal -/
 theorem C18_Digest_strict_write (d : Digest) (h : ¬ d.InRange) : writeDigest d = none := writeDigest_strict d h
